@@ -1,14 +1,5 @@
 import GeoVerif.Corr.Proto
-import GeoVerif.Corr.C16
-import GeoVerif.Corr.C18
-import GeoVerif.Corr.C04
-import GeoVerif.Corr.C05
-import GeoVerif.Corr.C08
-import GeoVerif.Corr.C20
-import GeoVerif.Corr.C12
-import GeoVerif.Corr.C07
-import GeoVerif.Corr.C01
-import GeoVerif.Corr.C02
+import GeoVerif.Corr.All
 /-!
 `gvdriver corr` : reads protocol lines on stdin, prints one `bad …` line per
 disagreement and a final `summary …` line.  Core Lean only (no Mathlib), so it
@@ -16,8 +7,7 @@ links as a native executable.
 -/
 open GeoVerif GeoVerif.Proto
 
-def handlers : List (String → List String → List String → Option Verdict) :=
-  [Corr.C16.handle, Corr.C18.handle, Corr.C04.handle, Corr.C05.handle, Corr.C08.handle, Corr.C20.handle, Corr.C12.handle, Corr.C07.handle, Corr.C01.handle, Corr.C02.handle]
+def handlers : List (String → List String → List String → Option Verdict) := Corr.allHandlers
 
 def dispatch (op : String) (args res : List String) : Verdict :=
   match handlers.findSome? (fun h => h op args res) with
